@@ -85,6 +85,8 @@ class C40(vlib.Spec):
         return proto.raft_term(case, res)
 
     def shrink(self, case):
+        if case["k"].startswith("px_"):
+            return []
         return proto.shrink_raft(case)
 
     def nontrivial(self, case, res):
